@@ -1410,6 +1410,14 @@ class DiameterMessage:
         """Cleanup all the DiameterMessage attributes and its respective 
         DiameterAVP objects.
         """
+        #: It updates the DiameterMessage object length attribute by decreasing
+        #: the length as per the length of each DiameterAVP object listed.
+        header_length = self.header.get_length()
+        for item in getattr(self, "_avps", list()):
+            header_length -= item.get_length()
+            if item.get_padding_length():
+                header_length -= item.get_padding_length()
+
         self._avps = list()
 
         #: Gets all DiameterMessage attributes based on DiameterAVP objects.
@@ -1419,17 +1427,11 @@ class DiameterMessage:
                 avps_keys.append(avp_key)
 
         #: Goes over each DiameterMessage attribute based on DiameterAVP 
-        #: object, pops it up and updates the DiameterMessage length attribute
-        #: by decreasing the length as per the DiameterAVP length.
+        #: object and pops it up.
         for avp_key in avps_keys:
-            item = self.__dict__[avp_key]
-
             self.__dict__.pop(avp_key, None)
 
-            header_length = self.header.get_length() - item.get_length()
-            if item.get_padding_length():
-                header_length -= item.get_padding_length()
-            self.header.length = convert_to_3_bytes(header_length)
+        self.header.length = convert_to_3_bytes(header_length)
 
 
     @staticmethod
